@@ -40,12 +40,77 @@ CHECKS = {
              'duality operators and of dual()/undual() kind selection, round-trip oracle on the implementation.',
         technique='Rocq proof on translated kernels + in-Coq differential correspondence',
         ref='DESIGN.md 4 (C05)'),
+    'C06': dict(
+        text='Theorems (every commutative ring, every valuation): evaluating the coefficients the symbolic generators of sw/proj/normsq '
+             'produce - with the zero-filter applied after every elementary operator, over kingdon\'s Polynomial class and over the '
+             'denominator-1 fragment of RationalPolynomial - equals the composition a*b*~a, (a|b)*~b, a*~a of the elementary model '
+             'operators on the values; the filter only removes blades and a dropped polynomial is identically zero.  Correspondence: '
+             'values against the model composition, stored keys against the model\'s symbolic run, composition oracle on the implementation.',
+        technique='Rocq proof (naturality under operation-preserving maps + verified polynomial zero test) + in-Coq differential correspondence',
+        ref='DESIGN.md 4 (C06)'),
     'C08': dict(
         text='Congruence theorems: every product-type operator (any sign function, filter, key-out), add, sub, neg, the involutions '
              'and the Hodge duals respect coefficient-wise equality of operands (permuted / zero-padded storage), over every '
              'commutative ring.  Metamorphic correspondence on the real kingdon for every operator incl. composite, inverse and series.',
         technique='Rocq proof (finite-sum re-indexing over key supersets) + metamorphic differential check',
         ref='DESIGN.md 4 (C08)'),
+    'C09': dict(
+        text='Theorems about Model/Cache.v (caches + shared name-keyed namespace + by-name callees of compiled registered functions): every '
+             'call of every sequential history runs the function generated for its own ordered keys; the same for EVERY interleaving of '
+             'any number of threads at the granularity of single dict operations; the name-claiming loop never overwrites a binding.  '
+             'Correspondence: random histories (direct / wrapper / registered / raising) against a fresh algebra, cache state (generation '
+             'events, generated names) against the model, barrier-forced and free-running threads.',
+        technique='Rocq proof (invariant by induction over operation sequences and over schedules) + differential history correspondence',
+        ref='DESIGN.md 4 (C09)'),
+    'C10': dict(
+        text='Theorems about Model/Cache.v: in every sequential history each (operator, ordered key tuples) is generated at most once, '
+             'generated = cached, and a lookup of a cached key changes nothing.  Correspondence: generation/compile events per call observed '
+             'from outside for every operator and five coefficient types; event sequence compared with the model.',
+        technique='Rocq proof (invariant over operation sequences) + event-count correspondence',
+        ref='DESIGN.md 4 (C10)'),
+    'C12': dict(
+        text='Theorems: every model operator commutes LITERALLY with any operation-preserving map of coefficients (substitution after '
+             'operating = operating after substitution, any symbolic/numeric partition); polynomial evaluation is such a map for every '
+             'commutative ring and valuation; the zero-filter is sound.  sympy.simplify and the call/lambdify glue are not modelled: '
+             'differential check of call (positional, keyword) and subs against numeric evaluation.',
+        technique='Rocq proof (naturality, structural induction, no ring laws needed) + differential symbolic/numeric correspondence',
+        ref='DESIGN.md 4 (C12)'),
+    'C13': dict(
+        text='PARTIAL.  Theorem: results are independent of the symbol class used for code generation (two coefficient structures with '
+             'operation-preserving maps into a common target give equal images).  cse / wrapper / func_builder-vs-lambdify are printer glue: '
+             'differential check of all 16 option combinations against default options.  Graded-mode completeness is refuted for null '
+             'generators (known finding F5).',
+        technique='Rocq proof (naturality) for the symbol-class option + differential option-matrix correspondence for the rest',
+        ref='DESIGN.md 4 (C13)'),
+    'C16': dict(
+        text='Theorems: the operand-order table of all infix/reflected dunders is re-derived from multivector.py on every run and proved to '
+             'keep (left, right); indexing array-valued coefficients commutes literally with every operator (pointwise structure).  '
+             'numpy broadcasting, list/tuple/callable unwrapping are glue: differential checks of getitem/setitem exactness, numbers and '
+             'sequences on either side, nested callables.',
+        technique='Rocq proof on a table translated from the source + naturality theorem + differential correspondence',
+        ref='DESIGN.md 4 (C16)'),
+    'C17': dict(
+        text='Theorems about Model/Poly.v (polynomial.py statement by statement): compare is a strict total order; + - * neg pow are '
+             'homomorphisms under evaluation in every commutative ring (unconditionally); the canonical-form invariant is preserved by every '
+             'operation; under it bool() and == 0 are EXACT zero tests and == is exact; rational + - * / neg inv pow are correct '
+             '(cross-multiplied), well-formedness is preserved, no zero divisors.  Structural correspondence on random operation sequences '
+             'incl. the invariant of every reachable object; sympy oracle for tosympy.',
+        technique='Rocq proof (structural induction on merge loops, leading-term argument) + structural differential correspondence',
+        ref='DESIGN.md 4 (C17)'),
+    'C18': dict(
+        text='PARTIAL.  Finite-domain theorem (bound in the statement): for every default-basis algebra with 1 <= d <= 4, all signature '
+             'orderings, start 0-2, all pairs of basis blades: M(e_I) M(e_J) = s M(e_IJ) and column 0 is the unit vector (exhaustive '
+             'vm_compute lifted with forallb_forall); unbounded in the operands: linear, multiplicative, first column, frommatrix inverts, '
+             'injective.  Custom bases refuted (known finding F10).  expr_as_matrix is not modelled: direct oracle only (exploration).',
+        technique='Rocq proof: exhaustive kernel computation over a finite domain + unbounded linear-algebra lemmas; differential correspondence',
+        ref='DESIGN.md 4 (C18)'),
+    'C20': dict(
+        text='Theorems about Model/Graph.v (graph.py encode/walker + graph.js decode/toElement): decoding the payload reproduces for every '
+             'well-formed subject tree (lists, tuples, callables, sparse/full/permuted/array-valued multivectors) the coefficient of every '
+             'blade; key2idx is the canonical position; a drag overwrites exactly the stored coefficients.  Correspondence on random trees '
+             'and drag sequences.  Known finding F17 (draggable index shift after array-valued subjects).',
+        technique='Rocq proof (structural induction over subject trees) + in-Coq differential correspondence',
+        ref='DESIGN.md 4 (C20)'),
 }
 
 NOT_YET = {}
